@@ -121,7 +121,9 @@ class Proc:
     maxrss_kb: int
     wall_s: float
     timed_out: bool = False     # wall-clock watchdog fired  => inconclusive
-    cpu_exceeded: bool = False  # RLIMIT_CPU fired           => "hang" verdict
+    cpu_exceeded: bool = False  # RLIMIT_CPU fired, or blocked (below) => "hang" verdict
+    blocked: bool = False       # every thread asleep and no CPU tick consumed by the process or any child for BLOCKED_SAMPLES seconds: the
+                                # process waits for something that never comes (deadlock). Load independent: a starved thread is runnable, not asleep
 
     @property
     def stderr(self) -> str:
@@ -139,6 +141,35 @@ class Proc:
     def brief(self) -> dict:
         return {"argv": self.argv, "rc": self.rc, "sig": self.sig, "cpu_s": round(self.cpu_s, 3),
                 "maxrss_kb": self.maxrss_kb, "stderr": self.stderr[-2000:], "stdout": self.stdout[-500:]}
+
+
+BLOCKED_SAMPLES = 20
+
+
+def _group_state(pid: int):
+    """(CPU ticks consumed so far by every thread of every process of the child's session, all of them asleep?) or None if it cannot be read"""
+    total, asleep, seen = 0, True, False
+    try:
+        for d in os.listdir("/proc"):
+            if not d.isdigit():
+                continue
+            try:
+                with open("/proc/%s/stat" % d, "rb") as f:
+                    parts = f.read().rsplit(b") ", 1)[1].split()
+                if int(parts[3]) != pid:          # session id: the child was started with start_new_session
+                    continue
+                for t in os.listdir("/proc/%s/task" % d):
+                    with open("/proc/%s/task/%s/stat" % (d, t), "rb") as f:
+                        tp = f.read().rsplit(b") ", 1)[1].split()
+                    seen = True
+                    total += int(tp[11]) + int(tp[12])
+                    if tp[0] not in (b"S", b"I"):
+                        asleep = False
+            except (OSError, IndexError, ValueError):
+                continue
+    except OSError:
+        return None
+    return (total, asleep) if seen else None
 
 
 def run(argv, cwd=None, env=None, stdin: bytes | None = None, cpu_s: int = CPU_LIMIT_S,
@@ -169,12 +200,35 @@ def run(argv, cwd=None, env=None, stdin: bytes | None = None, cpu_s: int = CPU_L
     except (ProcessLookupError, PermissionError, OSError):
         pass
     timed_out = False
+    blocked = False
     deadline = t0 + wall_s
     delay = 0.0005
+    next_sample, still, last_ticks = t0 + 2.0, 0, None
     while True:
         wpid, status, ru = os.wait4(p.pid, os.WNOHANG)
         if wpid == p.pid:
             break
+        now = time.monotonic()
+        if now >= next_sample:
+            next_sample = now + 1.0
+            st = _group_state(p.pid)
+            if st is not None:
+                ticks, asleep = st
+                if asleep and ticks == last_ticks:
+                    still += 1
+                else:
+                    still = 0
+                last_ticks = ticks
+                if still >= BLOCKED_SAMPLES:
+                    blocked = True
+                    try:
+                        os.killpg(p.pid, signal.SIGQUIT)       # a Go process prints its goroutines
+                        time.sleep(0.3)
+                        os.killpg(p.pid, signal.SIGKILL)
+                    except ProcessLookupError:
+                        pass
+                    _, status, ru = os.wait4(p.pid, 0)
+                    break
         if time.monotonic() > deadline:
             timed_out = True
             try:
@@ -196,8 +250,8 @@ def run(argv, cwd=None, env=None, stdin: bytes | None = None, cpu_s: int = CPU_L
     rc = os.WEXITSTATUS(status) if os.WIFEXITED(status) else None
     sig = os.WTERMSIG(status) if os.WIFSIGNALED(status) else None
     cpu = ru.ru_utime + ru.ru_stime
-    cpu_ex = sig == signal.SIGXCPU or (sig == signal.SIGKILL and not timed_out)
-    return Proc(list(map(str, argv)), rc, sig, out, err, cpu, ru.ru_maxrss, time.monotonic() - t0, timed_out, cpu_ex)
+    cpu_ex = blocked or sig == signal.SIGXCPU or (sig == signal.SIGKILL and not timed_out)
+    return Proc(list(map(str, argv)), rc, sig, out, err, cpu, ru.ru_maxrss, time.monotonic() - t0, timed_out, cpu_ex, blocked)
 
 
 run_ru = run
